@@ -30,11 +30,13 @@ structure InitOK (cells : List Cell) (o : Nat) : Prop where
   objsLt : ∀ c ∈ cells, c.obj < o
   cellsOK : ∀ c ∈ cells, CellOK c
 
-/-- The source has the shape the model was written for (phase order of `run_iteration` with the
-renumbering loop after the erase, critical section and post-loop block of `cell_divider::run`,
-couplings stored as `(local id, node id)`). -/
+/-- The source has a shape the theorems cover: phase order of `run_iteration` with the renumbering
+loop after the erase; `cell_divider::run` with the daughters appended inside the critical section or
+collected and appended once after the loop (`DivShape`), fresh ids before that, then sort /
+`remove_index` / renumbering under `if(cells_to_delete_lst.size() > 0)`; couplings stored as
+`(local id, node id)`. -/
 theorem code_as_modelled : AsModelled code :=
-  ⟨rfl, rfl, rfl, fun _ => rfl, fun _ => rfl⟩
+  ⟨rfl, by decide, fun _ => rfl, fun _ => rfl⟩
 
 /-- the face-type indices the epithelial class writes are those of the model (`polarise` writes 0 / 1,
 `updateFaceTypes` writes 0) and fit in every admissible face-type table of an epithelial cell type -/
@@ -58,7 +60,7 @@ theorem remesh_inv {ms : List (Option Mesh)} {s : State} (h : Inv s) (hok : reme
 next two ids each; mothers removed with `remove_index`; everybody renumbered -/
 theorem division_inv {ev : DivEv} {s : State} (h : Inv s) (hok : divOKb code ev s = true) :
     Inv (divisionRound code ev s) :=
-  divisionRound_inv code_as_modelled.crit code_as_modelled.post h hok
+  divisionRound_inv code_as_modelled.div h hok
 
 theorem faceTypes_inv {s : State} (h : Inv s) : Inv (updateFaceTypes s) := updateFaceTypes_inv h
 
